@@ -462,6 +462,44 @@ def _fixture_verdict(res, tag):
         res.notes.append('self-check: bad_%s reported, good_%s silent (fixtures/positive.cpp)' % (tag, tag))
 
 
+def rule_cursor_direction(m):
+    """F-CURSOR: list cursors only move forward."""
+    res = RuleResult('F-CURSOR', 'a cursor into a neighbour list (std::list iterator local) that starts at begin() is only ever '
+                                 'advanced (++, erase(it++), it = erase(it)), never decremented: every traversal of the library is a '
+                                 'single forward pass, and `--` on begin() is undefined (with libstdc++ it lands on end() and silently '
+                                 'ends the pass)')
+    for f in list(m.fns) + _fixture_functions('cursor'):
+        if not f.tname.startswith(NS):
+            continue
+        u = f.unit
+        tt = Terms(f)
+        for n in f.nodes:
+            tgt = None
+            op = None
+            if n['k'] == 'UnaryOperator' and n.get('op') in ('++', '--'):
+                tgt, op = tt.t(n['c'][0], resolve_refs=False), n['op']
+            elif n['k'] == 'CXXOperatorCallExpr' and 'callee' in n and u.decl(n['callee']).get('op') in ('++', '--') and n.get('args'):
+                tgt, op = tt.t(n['args'][0], resolve_refs=False), u.decl(n['callee'])['op']
+            if tgt is None or tgt[0] not in ('var', 'field'):
+                continue
+            ct = u.decl(tgt[1]).get('ctype', '') if tgt[0] == 'var' else ''
+            if tgt[0] == 'field':
+                ct = 'std::_List_const_iterator' if tgt[1].endswith('::neighbour') else ''
+            if '_List_iterator' not in ct and '_List_const_iterator' not in ct:
+                continue
+            res.sites += 1
+            if op == '--':
+                res.fail(Finding('F-CURSOR', f.display(), 'cursor decremented', f.nloc(n['i']),
+                                 'the list cursor `%s` is decremented: the traversals of the library are single forward passes; stepping '
+                                 'back from begin() is undefined and in practice ends the pass at once, so the remaining entries '
+                                 'are never examined' % f.expr_text(n['i'])[:40]))
+            else:
+                res.ok(dict(function=f.display(), step=f.expr_text(n['i'])[:40]) if len(res.samples) < 6 else None, fn=f.display())
+    _fixture_verdict(res, 'cursor')
+    res.require_sites(10, 'cursor steps')
+    return res
+
+
 def rule_sorted_range(m):
     """F-SORTED: binary searches only on ranges that are sorted at that point."""
     res = RuleResult('F-SORTED', 'std::binary_search / lower_bound / upper_bound / equal_range are applied to [begin, end) of a '
